@@ -332,8 +332,10 @@ def parse_sync_group(src: str) -> dict:
     # the list starts empty and nothing but the loop touches it
     inits = [s for s in rest if isinstance(s, (ast.Assign, ast.AnnAssign))
              and _dotted(s.targets[0] if isinstance(s, ast.Assign) else s.target) == lst]
-    if len(inits) != 1 or not (isinstance(inits[0].value, ast.List) and not inits[0].value.elts):
-        raise TranslateError(f"distribute_calls: `{lst}` is not initialised to [] once in the sync branch")
+    if not inits or not (isinstance(inits[0].value, ast.List) and not inits[0].value.elts):
+        raise TranslateError(f"distribute_calls: `{lst}` is not initialised to [] in the sync branch")
+    if len(inits) > 1:
+        return {"own_invocations": False, "why": f"`{lst}` is rebuilt outside the loop"}
     if stmts.index(inits[0]) > stmts.index(loop):
         raise TranslateError(f"distribute_calls: `{lst}` initialised after the loop")
     for s in rest:
